@@ -5,6 +5,21 @@ HERE = os.path.dirname(os.path.dirname(os.path.abspath(__file__)))
 ALL = [f"C{i:02d}" for i in range(1, 21)]
 # id -> dict(category, technique, text, note, design_ref, engine)
 BUILT = {
+ "C02": dict(category="fault_enumeration", engine="E2 envshim I/O log + crash-image enumerator, real TensorStore::recover",
+   technique="exhaustive crash-image enumeration (every I/O-op boundary, every byte-torn write, every unsynced log tail) of all short operation histories, multi-epoch, against a reference map",
+   text="All sequences (quick <=3, thorough <=3 over a larger alphabet) of put_durable/delete_durable/checkpoint/sync over every key class and value kind run on a real durable TensorStore with its real file I/O logged; every crash image is recovered with the real recover() and must equal the reference after some prefix containing every acknowledged write; epochs 2-3 continue writing on the recovered store and crash again. Sync modes Immediate/Batched/Manual, with and without log rotation.",
+   note="Prefix-persistence crash model (torn writes at byte granularity, unsynced tails cut at every length, atomic ordered rename/unlink/truncate); snapshot files process-crash only; directory fsync and block reordering not modelled. Known finding C02-F1 (rotation) is matched by signature only.",
+   design_ref="§3 C02"),
+ "C10": dict(category="fault_enumeration", engine="E2 envshim I/O log + crash-image enumerator, real RaftNode::with_wal",
+   technique="exhaustive crash-image enumeration of all short protocol-step histories on a real RaftNode with WAL, multi-epoch; promises read from the node's own answers",
+   text="All sequences (quick <=3, thorough <=4) of RequestVote / AppendEntries (append, higher term, conflicting suffix) / election timeout / winning vote / ack / propose / higher-term response driven through handle_message on a real RaftNode::with_wal; at every byte-granular crash image the node is restarted from its WAL and must hold a term >= every term it acted on, refuse a second candidate in a term it voted in (asked of the real restarted node), and hold every acknowledged entry; up to 3 crash epochs.",
+   note="Prefix-persistence crash model; one node with scripted peers; snapshot install/compaction not in the alphabet.",
+   design_ref="§3 C10"),
+ "C13": dict(category="fault_enumeration", engine="E2 envshim I/O log + crash-image enumerator, real DistributedTxCoordinator + TxWal",
+   technique="exhaustive crash-image enumeration of coordinator histories (scripted prefixes x all short extensions), recovery probes and multi-epoch continuations, virtual clock",
+   text="Scripted reachable prefixes extended by every sequence (quick <=2, thorough <=3) of begin / yes-vote via handle_prepare / no-vote / commit / abort / timeout sweep / recover()+complete over 1-2 transactions x 2 shards (disjoint and overlapping keys); at every byte-granular crash image the coordinator is rebuilt with recover_from_wal and probed: completed commits cannot be aborted, timed out or queued for abort; completed aborts cannot be committed; fully voted transactions come back Prepared with their votes and commit; vote-collecting ones are forgotten and hold no locks. Epochs 2-3 run recovery calls, timeouts (clock advanced) and new transactions, then crash again.",
+   note="Prefix-persistence crash model; frozen virtual clock; transitions the coordinator does not log (timeout sweep, complete_*) promise nothing, as the statement only covers logged completions.",
+   design_ref="§3 C13"),
  "C17": dict(category="model_checking", engine="E3/E4 explicit-state over real LWWMembershipState",
    technique="exhaustive enumeration of update multisets x permutations x batchings + explicit-state BFS over real merge/suspect/fail/refute handlers",
    text="Every multiset of <=4 (thorough 5) updates over 2 members (3 members: <=3) with ties, in every distinct order, batching and with repetition, is merged by the real LWWMembershipState and all replicas must agree; BFS over two gossiping replicas checks incarnation/Lamport monotonicity and 'never Failed above announced incarnation' on every transition; the manager's handle_gossip(Sync) is driven with every short Sync sequence.",
